@@ -458,6 +458,22 @@ def gen_negative(rng, n):
         base = rng.choice([10, 16, 8, 2])
         kind = "U" if rng.random() < 0.8 else "B"
         r = rng.random()
+        if r < 0.12:
+            # a decimal-looking literal whose SECOND character looks like a radix marker (1b101, 7o17, 3x7f):
+            # only a leading 0 makes a prefix; these are decimal literals with an invalid character
+            lead = rng.choice("123456789")
+            mark, alphabet = rng.choice([("b", "01"), ("o", "01234567"), ("x", "0123456789abcdf")])
+            rest = "".join(rng.choice(alphabet) for _ in range(rng.randint(1, max(1, min(12, bits // 4 + 1)))))
+            out.append((f"{lead}{mark}{rest}_{kind}{max(bits, 64)}", f"decimal literal with '{mark}' as second character"))
+            continue
+        if r < 0.24:
+            # a character that is no digit in any base, anywhere among the digits
+            good = rng.getrandbits(max(bits - 8, 1)) if bits > 8 else 1
+            digits = render_digits(rng, good, base)
+            bad = rng.choice("ghijklmnpqrstvwyzGHJKLMNPQRSTVWYZ")
+            pos = rng.randint(1, len(digits))
+            out.append((f"{PREFIX[base]}{digits[:pos]}{bad}{digits[pos:]}_{kind}{bits}", f"character '{bad}' is not a digit"))
+            continue
         if r < 0.3:
             v, why = 2**bits, "value = 2^bits"
         elif r < 0.5:
@@ -653,7 +669,7 @@ def run_macro(tier, seed, ctx):
                 if len(samples) < 14:
                     samples.append(dict(property="C19", op="negative", literal=lit, why=why, diagnostic=err_lines[ln][:120], verdict="held"))
             else:
-                cls = "invalid-digit" if why.startswith("digit") else "over-range"
+                cls = "over-range" if why.startswith(("value", "hundreds", "one limb")) else "invalid-digit"
                 viol(f"C19|negative|accepted-{cls}", dict(op="negative", kind=f"bad literal accepted ({why})", literal=lit,
                      expected="compile error on this line", observed="no diagnostic for this line", program=f"fn main() {{ let _ = ruint::uint!({lit}); }}"))
         for ln, lit in good_lines.items():
